@@ -97,6 +97,13 @@ def obj_class():
             return ("tagged", tag, payload)
 
         @rpc_method
+        def hold(self, tag):
+            g = _GATE[0]
+            if g is not None:
+                g.wait(60.0)
+            return ("held", tag)
+
+        @rpc_method
         def blob(self, n, fill=80):
             return bytes([fill]) * n
 
@@ -1199,6 +1206,191 @@ def run_burst(plan):
 
 
 # ---------------------------------------------------------------------------
+# proxies with a HISTORY: lock / unlock / hand-over / force_unlock / with / timeout / delivery error / reconnect,
+# by the same and by other proxies; after every step every proxy is probed against the direct call
+# ---------------------------------------------------------------------------
+
+def gen_history_plan(rng, qn, seed):
+    n_prox = 4                      # 0: proxy from make_rpc_object, 1: same context by name, 2: peer "cli", 3: peer "cli" (2nd context, same name) or "cb"
+    toks = ["tok", "other-tok"]
+    ops = []
+    for _ in range(rng.randint(5, 12)):
+        i = rng.randrange(n_prox)
+        r = rng.random()
+        if r < 0.22:
+            ops.append(["lock", i])
+        elif r < 0.32:
+            ops.append(["lock_custom", i, rng.choice(toks)])
+        elif r < 0.47:
+            ops.append(["unlock", i])
+        elif r < 0.60:
+            ops.append(["unlock_custom", i, rng.choice(toks)])          # the documented hand-over release
+        elif r < 0.74:
+            ops.append(["force_unlock", i])
+        elif r < 0.80:
+            ops.append(["with", i])
+        elif r < 0.88:
+            ops.append(["timeout", i])
+        elif r < 0.94:
+            ops.append(["reconnect", rng.choice([2, 3])])
+        else:
+            ops.append(["delivery_error", rng.choice([2, 3])])
+    return {"seed": seed, "policy": rng.choice(["weighted", "pct"]), "ops": ops, "same_name": rng.random() < 0.5,
+            "payload": V.gen_value(rng, 1, qmi_names=qn)}
+
+
+def run_history(plan, real_tcp=False, want_trace=True):
+    """Returns (records, trace, info).  record = dict(step, proxy, tag, mode, outcome, connected)."""
+    records = []
+    trace = T.Trace()
+    payload = plan["payload"]
+
+    def body(w):
+        import threading
+        from harness import detsched as D
+        sim = not real_tcp
+
+        def quiesce():
+            if sim:
+                D.TIME_SHIM.sleep(0.01)
+            else:
+                import time as _t
+                _t.sleep(0.15)
+        srv = w.context("srv", server=True)
+        made = srv.make_rpc_object("obj", obj_class())
+        c2 = w.context("cli")
+        c3 = w.context("cli" if plan.get("same_name") else "cb")
+        w.connect(c2, srv)
+        w.connect(c3, srv)
+        ctxs = [srv, srv, c2, c3]
+        prox = [made, srv.get_rpc_object_by_name("srv.obj"), c2.get_rpc_object_by_name("srv.obj"), c3.get_rpc_object_by_name("srv.obj")]
+        fn = method_names()
+        pids = [(T.note_proxy(trace, fn, BINDING[0], "blk", HELPER_PARAMS[0]), T.note_proxy(trace, fn, BINDING[1], "nb", HELPER_PARAMS[1]))
+                for _ in prox]
+        connected = [True] * 4
+        gate = D.Event() if sim else threading.Event()
+        gate.set()
+        _GATE[0] = gate
+        counter = [0]
+
+        def probe(step):
+            for i, p in enumerate(prox):
+                counter[0] += 1
+                mode = "blk" if (counter[0] + i) % 2 else "nb"
+                tag = f"s{step}.p{i}.{counter[0]}"
+                rec = {"step": step, "proxy": i, "tag": tag, "mode": mode, "connected": connected[i], "outcome": None}
+                records.append(rec)
+                if mode == "blk":
+                    rec["outcome"] = _outcome(lambda: T.call_stub(trace, pids[i][0], p, "tagged", (tag,), {"payload": V.build(payload)}))
+                else:
+                    f = _outcome(lambda: T.call_stub(trace, pids[i][1], p.rpc_nonblocking, "tagged", (tag,), {"payload": V.build(payload)}))
+                    rec["outcome"] = f if f[0] == "exc" else _outcome(f[1].wait)
+        probe(0)
+        for step, op in enumerate(plan["ops"], start=1):
+            kind, i = op[0], op[1]
+            p = prox[i]
+            try:
+                if not connected[i] and kind not in ("reconnect",):
+                    pass                                    # a disconnected proxy's lock requests would only fail; skip
+                elif kind == "lock":
+                    p.lock()
+                elif kind == "lock_custom":
+                    p.lock(lock_token=op[2])
+                elif kind == "unlock":
+                    p.unlock()
+                elif kind == "unlock_custom":
+                    p.unlock(lock_token=op[2])
+                elif kind == "force_unlock":
+                    p.force_unlock()
+                elif kind == "with":
+                    try:
+                        with p:
+                            pass
+                    except D.SchedAbort:
+                        raise
+                    except BaseException:  # noqa - refused under a foreign lock: part of the history, judged by the probes
+                        pass
+                elif kind == "timeout":
+                    gate.clear()
+                    _outcome(lambda: p.hold("late", rpc_timeout=2.0 if sim else 0.2))
+                    gate.set()
+                    quiesce()
+                elif kind == "reconnect":
+                    c = ctxs[i]
+                    if connected[i]:
+                        c.disconnect_from_peer("srv")
+                        quiesce()
+                    w.connect(c, srv)
+                    connected[i] = True
+                elif kind == "delivery_error":
+                    c = ctxs[i]
+                    if connected[i]:
+                        c.disconnect_from_peer("srv")
+                        quiesce()
+                        connected[i] = False
+            except D.SchedAbort:
+                raise
+            probe(step)
+        _GATE[0] = None
+        trace.enabled = False
+        return True
+
+    T.TRACE = trace
+    try:
+        if real_tcp:
+            info = _run_real(body)
+        else:
+            from harness.simworld import run_scenario
+            out = run_scenario(plan["seed"], body, policy=plan.get("policy", "weighted"))
+            info = {"deadlock": out.deadlock, "budget": out.budget, "error": out.error,
+                    "thread_errors": out.thread_errors, "loop_exceptions": list(out.net.loop_exceptions) if out.net else []}
+    finally:
+        T.TRACE = None
+        g = _GATE[0]
+        _GATE[0] = None
+        if g is not None and real_tcp:
+            g.set()
+    return records, trace, info
+
+
+def history_oracle(plan, records, trace, info):
+    """None or (clause, detail).  For every probe call: what the object's lock was when the call was dispatched and which
+    token the call carried are read at `_handle_method_rpc_request`; whenever the object is free, or locked with this
+    call's token, the outcome must be the direct call's; otherwise it must be the 'locked by another proxy' refusal.
+    A call made through a disconnected context must end in a delivery error; no call may stay without an outcome."""
+    from qmi.core.exceptions import QMI_MessageDeliveryException, QMI_RuntimeException
+    if info.get("deadlock") or info.get("budget"):
+        return "no-outcome", f"{str(info.get('deadlock'))[:300]}"
+    if info.get("error") is not None:
+        return "scenario-error", repr(info["error"])[:300]
+    payload = V.build(plan["payload"])
+    for r in records:
+        out = r["outcome"]
+        where = f"step {r['step']} ({(['start'] + plan['ops'])[r['step']]}), proxy {r['proxy']}, {r['mode']}"
+        if out is None:
+            return "no-outcome", f"{where}: call {r['tag']} has no outcome"
+        ex = trace.execs.get(r["tag"])
+        if not r["connected"]:
+            if not (out[0] == "exc" and isinstance(out[1], QMI_MessageDeliveryException)):
+                return "disconnected-proxy", f"{where}: expected a delivery error, got {out!r:.200}"
+            continue
+        if ex is None:
+            return "not-dispatched", f"{where}: the call never reached the object; outcome {out!r:.200}"
+        lock, reqtok = ex
+        if lock is None or lock == reqtok:
+            cl = compare(("val", ("tagged", r["tag"], payload)), out)
+            if cl:
+                state = "object free" if lock is None else "object locked by this proxy"
+                stale = "" if reqtok is None or lock is not None else f", proxy still sends the token {reqtok} of an earlier lock()"
+                return "compatible-call-differs-from-direct", (f"{where}: {state}{stale}: direct call returns "
+                                                               f"('tagged', {r['tag']!r}, …), proxy gave {out!r:.200}")
+        else:
+            if not (out[0] == "exc" and type(out[1]) is QMI_RuntimeException and "locked" in str(out[1])):
+                return "incompatible-call-not-refused", f"{where}: object locked with {lock}, call carried {reqtok}: {out!r:.200}"
+    return None
+
+
+# ---------------------------------------------------------------------------
 # translator: how the stubs are bound, and which helper parameters a caller keyword can collide with
 # ---------------------------------------------------------------------------
 
@@ -1789,6 +1981,63 @@ class C02(Prop):
                                             {"kind": "corpus", "seed": seed, "real_tcp": real_tcp}))
             self._add_trace(res, trace, {"kind": "corpus", "seed": seed, "real_tcp": real_tcp}, lines, outs, spans)
 
+    def _histories(self, ctx, res, n, seen, lines, outs, spans, real_tcp=False):
+        rng = ctx.rng
+        qn = V.qmi_exception_names()
+        fixed = [  # the canonical ones first: owner locks, somebody else releases, owner calls
+            [["lock", 0], ["force_unlock", 1]], [["lock", 2], ["force_unlock", 0]], [["lock_custom", 1, "tok"], ["unlock_custom", 0, "tok"]],
+            [["lock_custom", 2, "tok"], ["unlock_custom", 3, "tok"]], [["lock", 3], ["reconnect", 3], ["force_unlock", 2]],
+            [["lock", 0], ["timeout", 0], ["unlock", 0], ["with", 1]], [["lock", 2], ["delivery_error", 2], ["force_unlock", 1], ["reconnect", 2]],
+        ] if not real_tcp else [[["lock", 2], ["force_unlock", 0]]]
+        for k in range(len(fixed) + n):
+            plan = gen_history_plan(rng, qn, rng.randrange(1 << 30))
+            if k < len(fixed):
+                plan["ops"] = fixed[k]
+                plan["same_name"] = True
+            if not V.pickle_roundtrips(V.build(plan["payload"])):
+                plan["payload"] = ["int", "1"]
+            records, trace, info = run_history(plan, real_tcp=real_tcp)
+            r = history_oracle(plan, records, trace, info)
+            res.note_case(("history", json.dumps(plan, sort_keys=True)))
+            res.count("history_scenarios" + ("_tcp" if real_tcp else ""))
+            res.count("history_probe_calls", len(records))
+            for rec in records:
+                ex = trace.execs.get(rec["tag"])
+                if ex is not None:
+                    lock, tok = ex
+                    res.count("history_probe_object_" + ("free" if lock is None else "locked") + "_proxy_token_" +
+                              ("none" if tok is None else "own" if tok == lock else "stale_or_foreign"))
+            for op in plan["ops"]:
+                res.count("history_op_" + op[0])
+            if r and f"history:{r[0]}" not in seen:
+                seen[f"history:{r[0]}"] = 1
+                small = self._shrink_history(plan, r[0], real_tcp)
+                rr = history_oracle(small, *self._rerun_history(small, real_tcp)) or r
+                res.failures.append(Failure(f"history:{r[0]}", f"proxy history {small['ops']}: {rr[1][:400]}",
+                                            {"kind": "history", "plan": small, "real_tcp": real_tcp}))
+            self._add_trace(res, trace, {"kind": "history", "plan": plan, "real_tcp": real_tcp}, lines, outs, spans)
+
+    def _rerun_history(self, plan, real_tcp):
+        records, trace, info = run_history(plan, real_tcp=real_tcp)
+        return records, trace, info
+
+    def _shrink_history(self, plan, clause, real_tcp):
+        def fails(p):
+            try:
+                r = history_oracle(p, *self._rerun_history(p, real_tcp))
+                return r is not None and r[0] == clause
+            except Exception:  # noqa
+                return False
+        cur, budget, i = plan, 30, 0
+        while i < len(cur["ops"]) and budget > 0:
+            cand = dict(cur, ops=cur["ops"][:i] + cur["ops"][i + 1:])
+            budget -= 1
+            if fails(cand):
+                cur = cand
+            else:
+                i += 1
+        return cur
+
     def _limits(self, ctx, res, seen, lines, outs, spans):
         """cases AT every limit that lives in the source (read from the live code on this run)"""
         lims = live_limits()
@@ -1978,16 +2227,17 @@ class C02(Prop):
                 res.note_case(("witness", nm))
             self._corpus(ctx, res, seen, lines, outs, spans)
             self._limits(ctx, res, seen, lines, outs, spans)
+            self._histories(ctx, res, ctx.scale(40, 500), seen, lines, outs, spans)
             self._timeouts(ctx, res, ctx.scale(50, 500), seen, lines, outs, spans)
             ctx.log(f"fixed corpus and rpc_timeout scenarios done, {len(res.failures)} failing signatures")
-            self._scripts(ctx, res, ctx.scale(180, 2000), 8, seen, lines, outs, spans)
+            self._scripts(ctx, res, ctx.scale(165, 2000), 8, seen, lines, outs, spans)
             ctx.log(f"scripts done: {res.evaluations} calls compared, {len(res.failures)} failing signatures")
-            self._concurrent(ctx, res, ctx.scale(300, 3000), seen, lines, outs, spans, thorough=not ctx.quick)
+            self._concurrent(ctx, res, ctx.scale(250, 3000), seen, lines, outs, spans, thorough=not ctx.quick)
             ctx.log(f"concurrent scenarios done ({len(lines)} trace lines)")
             # client churn.  (When a client disconnects with calls pending, the server's worker thread and its socket
             # thread race on the peer map — `send` may or may not still see the connection — so those scenarios are
             # judged by the outcome oracle only; the quiescent-churn ones are also replayed on the Lean model.)
-            self._churn(ctx, res, ctx.scale(80, 700), seen, lines, outs, spans, thorough=not ctx.quick)
+            self._churn(ctx, res, ctx.scale(70, 700), seen, lines, outs, spans, thorough=not ctx.quick)
             ctx.log(f"client churn scenarios done ({len(lines)} trace lines)")
             self._diff(res, lines, outs, spans)
             # many futures outstanding at once in one context (address uniqueness far beyond a handful of callers)
@@ -2005,6 +2255,7 @@ class C02(Prop):
                 self._churn(ctx, res, 40, seen, lines, outs, spans, real_tcp=True, thorough=True)
                 self._corpus(ctx, res, seen, lines, outs, spans, real_tcp=True)
                 self._timeouts(ctx, res, 15, seen, lines, outs, spans, real_tcp=True)
+                self._histories(ctx, res, 20, seen, lines, outs, spans, real_tcp=True)
                 ctx.log("real loopback TCP scenarios done")
                 self._diff(res, lines, outs, spans)
         res.extra["occurrences_per_failure_signature"] = dict(seen)
@@ -2028,7 +2279,7 @@ class C02(Prop):
                     for f in eval_script(c["plan"], vs, c.get("real_tcp", False)):
                         self._note_failure(res, seen, c["plan"], f[0], f[1], f[2], f[3], c.get("real_tcp", False))
                     res.note_case(("case", json.dumps(c["plan"], sort_keys=True)))
-                elif c.get("kind") in ("corpus", "timeout", "size", "burst"):
+                elif c.get("kind") in ("corpus", "timeout", "size", "burst", "history"):
                     f = self.replay(ctx, c)
                     res.note_case(("case", json.dumps(c, sort_keys=True, default=repr)))
                     if f is not None and f.signature not in seen:
@@ -2118,6 +2369,9 @@ class C02(Prop):
                 checks, _, _, info = run_corpus(rp["seed"], real_tcp=rp.get("real_tcp", False))
                 r = checks_oracle(checks, info)
                 return Failure(f"corpus:{r[0]}", r[1][:600], rp) if r else None
+            if rp.get("kind") == "history":
+                r = history_oracle(rp["plan"], *run_history(rp["plan"], real_tcp=rp.get("real_tcp", False)))
+                return Failure(f"history:{r[0]}", r[1][:600], rp) if r else None
             if rp.get("kind") == "size":
                 checks, _, _, info = run_size_boundary(rp["plan"], want_trace=False)
                 r = checks_oracle(checks, info)
